@@ -485,7 +485,17 @@ func (p *parser) parseConstValue(node *node32) (cv *ConstValue, err error) {
 	// DoubleConstant / IntConstant / Literal / Identifier / ConstList / ConstMap
 	switch node.pegRule {
 	case ruleDoubleConstant:
-		double, _ := strconv.ParseFloat(p.pegText(node), 64)
+		// take the whole captured text: pegText would descend into the
+		// exponent's IntConstant and return only that part
+		text := p.pegText(node)
+		for n := node.up; n != nil; n = n.next {
+			if n.pegRule == rulePegText {
+				// the exponent's IntConstant also swallows trailing blanks
+				text = strings.TrimSpace(string(p.buffer[n.begin:n.end]))
+				break
+			}
+		}
+		double, _ := strconv.ParseFloat(text, 64)
 		return &ConstValue{Type: ConstType_ConstDouble, TypedValue: &ConstTypedValue{Double: &double}}, nil
 	case ruleIntConstant:
 		i, err := strconv.ParseInt(p.pegText(node), 0, 64)
